@@ -725,6 +725,11 @@ func (r *Runtime) regexpproto_getFlags(call FunctionCall) Value {
 }
 
 func (r *Runtime) regExpExec(execFn func(FunctionCall) Value, rxObj *Object, arg Value) Value {
+	if execFn == nil {
+		// the receiver has no callable 'exec' and (as the callers only get here for non-standard
+		// objects) no [[RegExpMatcher]] either
+		panic(r.NewTypeError("object is not a RegExp and has no callable 'exec' method"))
+	}
 	res := execFn(FunctionCall{
 		This:      rxObj,
 		Arguments: []Value{arg},
